@@ -137,6 +137,113 @@ theorem make_declarative_sound_partial {α : Type} (I : Interp α) (ss : List St
     run I (makeDeclarative ss) ρ = run I ss ρ :=
   mdGo_sound I ss [] [] ρ ρ (Inv.refl I ρ) (by simp [Sub.dom]) (by simp [Sub.dom]) h
 
+/-- **The suggested repair is sound** whenever no emitted statement re-defines a
+    symbol that a pending value reads (clause (b) only; it needs an *input* —
+    data column or parameter — to be assigned after it was read): substituting
+    the pending values into the first assignment as well removes witness
+    class (a) altogether. -/
+theorem mdGoFix_sound {α : Type} (I : Interp α) :
+    ∀ (rest : List St) (seen : List Sym) (cur : Sub) (ρo ρn : Env α),
+      Inv I cur ρo ρn →
+      (∀ y ∈ cur.dom, y ∈ seen) →
+      (∀ y ∈ cur.dom, assignedIn y rest = true) →
+      mdSafeFix seen cur rest = true →
+      run I (mdGoFix seen cur rest) ρn = run I rest ρo := by
+  intro rest
+  induction rest with
+  | nil =>
+    intro seen cur ρo ρn hinv _ hlater _
+    simp only [mdGoFix, run_nil]
+    funext y
+    have hy : y ∉ cur.dom := fun hh => by simpa [assignedIn] using hlater y hh
+    have := hinv y
+    rw [Sub.get_none_of_not_dom cur y hy] at this
+    exact this.symm
+  | cons s rest ih =>
+    intro seen cur ρo ρn hinv hseen hlater hsafe
+    cases s with
+    | ode a r =>
+      simp only [mdSafeFix, Bool.and_eq_true, List.all_eq_true] at hsafe
+      simp only [mdGoFix, run_cons]
+      apply ih seen cur _ _ _ hseen _ hsafe.2
+      · apply hinv.ode a r _ (map_substE_eval hinv r)
+        intro y hy
+        have := hsafe.1 y hy
+        simp only [Bool.not_eq_true', List.contains_eq_mem, decide_eq_false_iff_not] at this
+        exact ⟨Sub.get_none_of_not_dom cur y this.1, this.2⟩
+      · intro y hy
+        simpa [assignedIn_cons_ode] using hlater y hy
+    | assign x e =>
+      have hval : eval I ρn (substE cur e) = eval I ρo e := hinv.eval_substE e
+      by_cases hl : assignedIn x rest = true
+      · -- assigned again later: defer, substituted
+        simp only [mdGoFix, mdSafeFix, hl, Bool.not_true, Bool.and_false, Bool.false_eq_true,
+          ↓reduceIte] at hsafe ⊢
+        rw [run_cons]
+        apply ih (x :: seen) _ _ _ (hinv.defer x _ _ hval) _ _ hsafe
+        · intro y hy
+          rcases Sub.dom_set_subset cur x _ y hy with h | h
+          · subst h; simp
+          · exact List.mem_cons_of_mem _ (hseen y h.1)
+        · intro y hy
+          rcases Sub.dom_set_subset cur x _ y hy with h | h
+          · subst h; exact hl
+          · have := hlater y h.1
+            rw [assignedIn_cons_assign] at this
+            have hne : (x == y) = false := by simpa using fun hh : x = y => h.2 hh.symm
+            simpa [hne] using this
+      · have hl' : assignedIn x rest = false := by simpa using hl
+        by_cases hseenx : seen.contains x = true
+        · -- last of several: emit and delete
+          simp only [mdGoFix, mdSafeFix, hseenx, hl', Bool.not_true, Bool.false_and, Bool.false_eq_true,
+            ↓reduceIte, Bool.and_eq_true, Bool.not_eq_true', List.contains_eq_mem,
+            decide_eq_false_iff_not] at hsafe ⊢
+          rw [run_cons, run_cons]
+          simp only [St.exec, hval]
+          apply ih seen _ _ _ (hinv.emit_del x _ hsafe.1) _ _ hsafe.2
+          · intro y hy
+            exact hseen y (Sub.dom_del_subset cur x y hy).1
+          · intro y hy
+            have hd := Sub.dom_del_subset cur x y hy
+            have := hlater y hd.1
+            rw [assignedIn_cons_assign] at this
+            have hne : (x == y) = false := by simpa using fun hh : x = y => hd.2 hh.symm
+            simpa [hne] using this
+        · -- assigned exactly once: emit
+          have hseenx' : seen.contains x = false := by simpa using hseenx
+          have hxdom : x ∉ cur.dom := fun hh => by
+            have := hseen x hh
+            simp [List.contains_eq_mem] at hseenx'
+            exact hseenx' this
+          simp only [mdGoFix, mdSafeFix, hseenx', hl', Bool.not_false, Bool.and_self, ↓reduceIte,
+            Bool.and_eq_true, Bool.not_eq_true', List.contains_eq_mem,
+            decide_eq_false_iff_not] at hsafe ⊢
+          rw [run_cons, run_cons]
+          simp only [St.exec, hval]
+          apply ih (x :: seen) _ _ _
+            (hinv.emit x _ (Sub.get_none_of_not_dom cur x hxdom) hsafe.1) _ _ hsafe.2
+          · intro y hy
+            exact List.mem_cons_of_mem _ (hseen y hy)
+          · intro y hy
+            have := hlater y hy
+            rw [assignedIn_cons_assign] at this
+            have hne : (x == y) = false := by
+              simpa using fun hh : x = y => hxdom (hh ▸ hy)
+            simpa [hne] using this
+
+theorem make_declarative_repaired_sound {α : Type} (I : Interp α) (ss : List St)
+    (h : mdSafeFix [] [] ss = true) (ρ : Env α) :
+    run I (mdGoFix [] [] ss) ρ = run I ss ρ :=
+  mdGoFix_sound I ss [] [] ρ ρ (Inv.refl I ρ) (by simp [Sub.dom]) (by simp [Sub.dom]) h
+
+-- the repair handles F8's program (rejected by `noStaleCapture`), giving B = 1 + 2
+example : mdSafeFix [] [] [.assign "A" (.lit 1), .assign "B" (.sym "A"), .assign "A" (.lit 2),
+    .assign "B" (.f2 "add" (.sym "B") (.sym "A")), .assign "Y" (.f2 "add" (.sym "P") (.sym "B"))] = true ∧
+    mdGoFix [] [] [.assign "A" (.lit 1), .assign "B" (.sym "A"), .assign "A" (.lit 2),
+    .assign "B" (.f2 "add" (.sym "B") (.sym "A")), .assign "Y" (.f2 "add" (.sym "P") (.sym "B"))]
+    = [.assign "A" (.lit 2), .assign "B" (.f2 "add" (.lit 1) (.sym "A")),
+       .assign "Y" (.f2 "add" (.sym "P") (.sym "B"))] := by decide
+
 /-- Everything the rewritten list assigns is assigned (later or now) in the input. -/
 theorem mdGo_lhs_subset (rest : List St) :
     ∀ (seen : List Sym) (cur : Sub) (y : Sym), y ∈ lhs (mdGo seen cur rest) → assignedIn y rest = true := by
